@@ -338,6 +338,10 @@ draw_st = st.fixed_dictionaries({
     'chain_names': st.lists(st.sampled_from(['d', 'lib', 'AB', 'ab', 'sub', 'n', 'deep', 'x1', 'Data', 'data', 'ü', 'long_directory_name']),
                             min_size=9, max_size=9),
     'entries': st.sampled_from([1, 2, 3, 4, 6, 8, 10, 12, 16, 20, 25]).flatmap(lambda n: st.lists(entry_draw, min_size=n, max_size=n)),
+    # a directory whose records add up to exactly one sector in the Joliet view (k names of n characters: 68 + k * (34 + 2n) = 2048)
+    # or in the plain ISO9660 view (45 names whose identifiers take 10-11 bytes: 68 + 45 * 44), one file more or less
+    'fill': st.one_of(st.none(), st.none(), st.none(),
+                      st.tuples(st.sampled_from([(15, 49), (30, 16), (22, 28), (18, 38), (45, 5), (33, 13), (45, 'iso')]), st.sampled_from([0, 0, 0, 1, -1]))),
 })
 
 
@@ -451,6 +455,22 @@ def build_case(d):
                     spec['flip'] = flip
             if add(path, 'file', content=spec):
                 files.append(spec)
+    if d.get('fill'):
+        (k, n), delta = d['fill']
+        fdir = 'zfill'
+        if fdir not in used:
+            used.add(fdir)
+            tree.append({'path': fdir, 'kind': 'dir'})
+            for i in range(k + delta):
+                if n == 'iso':
+                    nm = 'fi%04d.a' % i                 # identifier FI0000.A;1: 10 bytes -> a 44-byte record without Rock Ridge
+                else:
+                    nm = ('f%03d' % i) + 'x' * (n - 4) if n >= 4 else None
+                if nm is None:
+                    break
+                pth = fdir + '/' + nm
+                used.add(pth)
+                tree.append({'path': pth, 'kind': 'file', 'content': {'seed': 700000 + i, 'size': (0, 1, 3)[i % 3]}})
     # patterns are made from the names actually present
     names = sorted({e['path'].rsplit('/', 1)[-1] for e in tree})
 
